@@ -72,6 +72,23 @@ fn job_attr_name(rng: &mut Rng) -> String {
     }
 }
 
+/// a job attribute: a fresh (name, value), or - so that values recur after something else was given for the name
+/// (x, y, x) - an exact repetition of an earlier pair, or an earlier name with a fresh value
+fn job_attr(rng: &mut Rng, cfg: &G1Cfg, history: &mut Vec<(String, MVal)>, depth: usize) -> (String, MVal) {
+    let pair = if !history.is_empty() && rng.chance(1, 3) {
+        let (n, v) = rng.pick(history).clone();
+        if rng.chance(1, 2) {
+            (n, v)
+        } else {
+            (n, gen::gen_value(rng, cfg, depth, false))
+        }
+    } else {
+        (job_attr_name(rng), gen::gen_value(rng, cfg, depth, false))
+    };
+    history.push(pair.clone());
+    pair
+}
+
 pub fn gen_program(rng: &mut Rng) -> Program {
     let op = rng.below(10) as usize;
     let mut calls = vec![];
@@ -81,17 +98,18 @@ pub fn gen_program(rng: &mut Rng) -> Program {
         _ => rng.range(1, 7),
     };
     let cfg = G1Cfg { max_depth: 2, oob_nonempty: false, ..G1Cfg::default() };
+    let mut history: Vec<(String, MVal)> = vec![];
     for _ in 0..ncalls {
         let c = match rng.below(7) {
             0 | 1 => Call::UserName(gen::gen_string(rng, false)),
             2 => Call::JobName(gen::gen_string(rng, false)),
             3 => {
-                let name = job_attr_name(rng);
-                Call::Attribute(name, gen::gen_value(rng, &cfg, 2, false))
+                let (name, v) = job_attr(rng, &cfg, &mut history, 2);
+                Call::Attribute(name, v)
             }
             4 => {
                 let n = rng.range(0, 3);
-                Call::Attributes((0..n).map(|_| (job_attr_name(rng), gen::gen_value(rng, &cfg, 1, false))).collect())
+                Call::Attributes((0..n).map(|_| job_attr(rng, &cfg, &mut history, 1)).collect())
             }
             5 => {
                 if rng.chance(1, 2) {
